@@ -54,6 +54,7 @@ package proxy
 //@   ghost gallowed bool = false
 //@   at relayUntilReady#1 after start
 //@   at newQueryCache#1 before assert [C37.acl_is_the_configured_one] acl.Allow == s.cfg.ACL.Allow && acl.Deny == s.cfg.ACL.Deny
+//@   at Receive#1 before set gfresh = false
 //@   at cacheKey#1 before assert [C37.cache_key_of_the_forwarded_text] arg0 == trimSpace(m.String)
 //@   at authorizeQuery#1 before assert [C37.authorizes_the_forwarded_text] arg1 == trimSpace(m.String)
 //@   at authorizeQuery#1 before assert [C37.authorizes_with_that_acl] arg0 == acl
